@@ -49,10 +49,14 @@ def run(res, tier, seed, replay):
     if replay and replay.get("replay", {}).get("record"):
         outs = [(seed, replay["replay"]["record"] + "\n")]
     else:
-        def one(s):
-            return s, vpl.run_harness(exe, ["--tier", tier, "--seed", s], timeout=1500)
-        with ThreadPoolExecutor(8) as ex:
-            for s, (rc, out, err) in ex.map(one, seeds):
+        jobs = [(s, "twoparty") for s in seeds]
+        nparts = 1 if tier == "quick" else 8
+        jobs += [(seed, "nparty:%d/%d" % (k, nparts)) for k in range(nparts)]
+        def one(job):
+            s, only = job
+            return s, vpl.run_harness(exe, ["--tier", tier, "--seed", s, "--only", only], timeout=2400)
+        with ThreadPoolExecutor(12) as ex:
+            for s, (rc, out, err) in ex.map(one, jobs):
                 if rc != 0:
                     res.violation("harness-crash", "harness c17 exited with %d: %s" % (rc, err[-800:]),
                                   dict(kind="harness", cmd="c17 --tier %s --seed %d" % (tier, s), stderr=err[-2000:]))
